@@ -11,20 +11,22 @@
    borders + one cell per column and the recipe is in scope at its own minimum.
 
    Mode "emit" (M2): a Finish action closes the recipe and Emit prints it as JSON; with -simulate every
-   behaviour is one random builder history over the FULL option sets.  drivers/c07.py completes the
+   behaviour is one random builder history over the FULL option sets - including AddColumn AFTER AddRow (a late
+   column: rich.table.Table.add_column() fills it with blank cells for the rows that exist; births[j] = the number
+   of rows that existed when column j was added, the driver leaves those cells out of the recipe's rows).  drivers/c07.py completes the
    recipe with self-identifying cell contents and builds a real rich.table.Table from it.          *)
 EXTENDS Table, TLC, Json
 
 CONSTANTS MaxCols, MaxRows, Mode
 
-VARIABLES t, ends, bx, phase
-vars == <<t, ends, bx, phase>>
+VARIABLES t, ends, bx, phase, births
+vars == <<t, ends, bx, phase, births>>
 
 Full == Mode = "emit"
 Boxes == IF Full THEN {"none", "ASCII", "SIMPLE", "HEAVY_HEAD", "HORIZONTALS", "MINIMAL", "DOUBLE_EDGE"} ELSE {"none", "ASCII"}
 Leads == IF Full THEN 0..3 ELSE {0, 2}
 Pads  == IF Full THEN 0..3 ELSE {0, 1}
-ColOpts == IF Full THEN [ov : {"fold", "crop", "ellipsis"}, ratio : {-1, 1, 2}, maxw : {0, 4, 9}]
+ColOpts == IF Full THEN [ov : {"fold", "crop", "ellipsis", "ignore"}, ratio : {-1, 0, 1, 2}, maxw : {0, 4, 9}]
            ELSE {[ov |-> "fold", ratio |-> -1, maxw |-> 0], [ov |-> "ellipsis", ratio |-> -1, maxw |-> 4]}
 
 \* column 2 holds double-width characters
@@ -34,24 +36,26 @@ GridOf(nc, nr, sh, sf) ==
     IN [g \in DOMAIN ids |-> [rid |-> ids[g], cells |-> [j \in 1..nc |-> CellAt(ids[g], j)]]]
 Regrid(r) == [r EXCEPT !.grid = GridOf(r.nc, r.nr, r.sh, r.sf)]
 
-Init == /\ t = [nc |-> 0] /\ ends = <<>> /\ bx = "none" /\ phase = "new"
+Init == /\ t = [nc |-> 0] /\ ends = <<>> /\ bx = "none" /\ phase = "new" /\ births = <<>>
 
 On == TRUE
 Configure == \E b \in Boxes, edge, sh, sf, sl, pe, cp, ex \in BOOLEAN, lead \in Leads, px \in Pads :
     /\ On /\ phase = "new"
     /\ t' = [nc |-> 0, nr |-> 0, box |-> b # "none", edge |-> edge, sh |-> sh, sf |-> sf, sl |-> sl, lead |-> lead,
              pl |-> px, pr |-> px, pe |-> pe, cp |-> cp, ex |-> ex, w |-> 0, minw |-> 0, cols |-> <<>>, grid |-> <<>>]
-    /\ bx' = b /\ phase' = "cols" /\ UNCHANGED ends
+    /\ bx' = b /\ phase' = "cols" /\ UNCHANGED <<ends, births>>
+\* (M1 keeps to columns before rows: its ideal render fills every cell; late columns are M2's business)
 AddColumn == \E o \in ColOpts :
-    /\ On /\ phase = "cols" /\ t.nc < MaxCols
+    /\ On /\ (phase = "cols" \/ (Full /\ phase = "rows")) /\ t.nc < MaxCols
     /\ t' = Regrid([t EXCEPT !.nc = @ + 1,
                              !.cols = Append(@, [ov |-> o.ov, ratio |-> o.ratio, w |-> 0, minw |-> 0, maxw |-> o.maxw, nw |-> FALSE])])
+    /\ births' = Append(births, t.nr)
     /\ UNCHANGED <<ends, bx, phase>>
 AddRow == \E e \in BOOLEAN :
     /\ On /\ phase \in {"cols", "rows"} /\ t.nc >= 1 /\ t.nr < MaxRows
     /\ t' = Regrid([t EXCEPT !.nr = @ + 1])
-    /\ ends' = Append(ends, e) /\ phase' = "rows" /\ UNCHANGED bx
-Finish == /\ On /\ Full /\ phase \in {"cols", "rows"} /\ t.nc >= 1 /\ phase' = "done" /\ UNCHANGED <<t, ends, bx>>
+    /\ ends' = Append(ends, e) /\ phase' = "rows" /\ UNCHANGED <<bx, births>>
+Finish == /\ On /\ Full /\ phase \in {"cols", "rows"} /\ t.nc >= 1 /\ phase' = "done" /\ UNCHANGED <<t, ends, bx, births>>
 Next == Configure \/ AddColumn \/ AddRow \/ Finish
 Spec == Init /\ [][Next]_vars
 
@@ -105,7 +109,8 @@ Code(rid, j) == 1000 + 10 * rid + j
 IdealCells(r) == LET n == Len(r.grid) * r.nc IN
     [q \in 1..n |-> LET g == ((q - 1) \div r.nc) + 1
                         j == ((q - 1) % r.nc) + 1
-                    IN [r |-> r.grid[g].rid, c |-> j, ord |-> TRUE, src |-> <<Code(r.grid[g].rid, j)>>, out |-> <<Code(r.grid[g].rid, j)>>]]
+                    IN [r |-> r.grid[g].rid, c |-> j, ord |-> TRUE, src |-> <<Code(r.grid[g].rid, j)>>, out |-> <<Code(r.grid[g].rid, j)>>,
+                        cov |-> "", cnw |-> FALSE]]
 
 Accepts(r, W, L, cells) == TableWhy(r, W, "none", L, cells)[1] = "ok"
 Clause(r, W, L, cells) == TableWhy(r, W, "none", L, cells)[1]
@@ -168,6 +173,7 @@ Bit(b) == IF b THEN 1 ELSE 0
 Emit == phase = "done" =>
     PrintT(ToJson([beh |-> [nc |-> t.nc, nr |-> t.nr, box |-> bx, edge |-> t.edge, sh |-> t.sh, sf |-> t.sf, sl |-> t.sl, lead |-> t.lead,
                             px |-> t.pl, pe |-> t.pe, cp |-> t.cp, ex |-> t.ex,
-                            cols |-> [j \in 1..t.nc |-> [ov |-> t.cols[j].ov, ratio |-> t.cols[j].ratio, maxw |-> t.cols[j].maxw]],
+                            cols |-> [j \in 1..t.nc |-> [ov |-> t.cols[j].ov, ratio |-> t.cols[j].ratio, maxw |-> t.cols[j].maxw,
+                                                          at |-> births[j]]],
                             ends |-> [i \in DOMAIN ends |-> Bit(ends[i])]]]))
 =============================================================================
